@@ -17,10 +17,17 @@ EXTENDS Integers, Sequences, FiniteSets
 
 Range(s) == {s[i] : i \in 1 .. Len(s)}
 
-AstDefects(want, got, nwant_none, ngot_none) ==
+\* all  : every content token of the input in input order
+\* want : those of them the value must hold (all but the tokens under a ?= assignment:
+\*        the statement lets such a token contribute its presence only; the generator as
+\*        it is keeps the text, which the statement does not forbid)
+AstDefectsOpt(all, want, got, nwant_none, ngot_none) ==
   (IF Range(want) \subseteq Range(got) THEN {} ELSE {<<"content_token_missing", Range(want) \ Range(got)>>})
-  \cup (IF Range(got) \subseteq Range(want) THEN {} ELSE {<<"unexpected_text", Range(got) \ Range(want)>>})
+  \cup (IF Range(got) \subseteq Range(all) THEN {} ELSE {<<"unexpected_text", Range(got) \ Range(all)>>})
   \cup (IF Len(got) = Cardinality(Range(got)) THEN {} ELSE {<<"content_token_duplicated">>})
-  \cup (IF Range(want) = Range(got) /\ Len(got) = Len(want) /\ got # want THEN {<<"order_differs", got>>} ELSE {})
+  \cup (IF Range(got) \subseteq Range(all) /\ Len(got) = Cardinality(Range(got))
+           /\ got # SelectSeq(all, LAMBDA t : t \in Range(got))
+        THEN {<<"order_differs", got>>} ELSE {})
   \cup (IF nwant_none < 0 \/ nwant_none = ngot_none THEN {} ELSE {<<"none_count", ngot_none, nwant_none>>})
+AstDefects(want, got, nwant_none, ngot_none) == AstDefectsOpt(want, want, got, nwant_none, ngot_none)
 =============================================================================
